@@ -75,24 +75,10 @@ Definition resp_tables_equiv (G : tables) : bool :=
   && Z.eqb (blen (t_resp_variants G)) (blen (t_resp_variants spec_tables))
   && Z.eqb (err_code G "Other") (err_code spec_tables "Other").
 
-Lemma generated_resp_tables : forallb (fun f => resp_tables_equiv (gen_tables f)) all_feats = true.
-Proof. vm_compute. reflexivity. Qed.
 
-Lemma generated_ser_role :
-  forallb (fun f => env_conforms_role decl_ser (gen_env f) (spec_env f)) all_feats = true.
-Proof. vm_compute. reflexivity. Qed.
 
-Lemma generated_request_side :
-  forallb (fun f => request_side_conforms (gen_env f) (spec_env f)) all_feats = true.
-Proof. vm_compute. reflexivity. Qed.
 
-Lemma generated_response_side :
-  forallb (fun f => response_side_conforms (gen_env f) (spec_env f)) all_feats = true.
-Proof. vm_compute. reflexivity. Qed.
 
-Lemma generated_de_role :
-  forallb (fun f => env_conforms_role decl_de (gen_env f) (spec_env f)) all_feats = true.
-Proof. vm_compute. reflexivity. Qed.
 
 (* ---- Request::deserialize, generically in the tables (keeps the kernel away from unfolding the
    concrete tables under binders) *)
